@@ -61,6 +61,18 @@ def run_case(case):
                 res.check(out.shape == W0.shape and err <= 1e-10, "cadzow:full-rank-identity", f"{label}: rank {rfull} (full) changes the data by {err:.3g}",
                           counter="cadzow_identity")
                 res.check(np.array_equal(W, W0), "cadzow:input-mutated", f"{label}: input spectrum modified")
+                # an explicit bound that keeps the whole band is still the identity; a smaller one leaves the kept bins untouched by the others
+                for im in (nf, nf + int(rng.integers(1, 5))):
+                    out = CZ.denoise(W0.copy(), x, y, rfull, imax=im)
+                    err = np.max(np.abs(out - W0)) / np.max(np.abs(W0))
+                    res.check(err <= 1e-10, "cadzow:full-rank-identity:imax", f"{label}: rank {rfull} (full) with imax={im} >= {nf} bins changes the data by {err:.3g}", counter="cadzow_identity")
+                if nf > 2:
+                    im = int(rng.integers(1, nf))
+                    out = CZ.denoise(W0.copy(), x, y, rfull, imax=im)
+                    err = np.max(np.abs(out[:, :im] - W0[:, :im])) / np.max(np.abs(W0))
+                    res.check(err <= 1e-10, "cadzow:full-rank-identity:imax", f"{label}: rank {rfull} (full) with imax={im}: the kept bins change by {err:.3g}")
+                out = CZ.denoise(W0.copy(), x, y, rfull, niter=int(rng.integers(2, 4)))
+                res.check(np.max(np.abs(out - W0)) / np.max(np.abs(W0)) <= 1e-9, "cadzow:full-rank-identity:niter", f"{label}: several iterations at full rank change the data")
                 # every trace is used: trace counts positive
                 res.check(np.all(trc > 0) and trc.size == nc, "cadzow:trajectory-coverage", f"{label}: trace counts {trc[:8]}")
                 # (ii) a single plane wave has rank one
